@@ -184,7 +184,10 @@ CLAIMED["C10"] = {
     "text": "Coq theorems: doc_cleanups keeps the block structure and maps every leaf through the documented rewrite (a heading whose whole "
             "content is bold loses the bold, bold-italic becomes italic), all other leaves untouched at any depth; for every document tree, "
             "every wrapper and every two list-spacing modes the two rendered outputs have the same lines apart from lines that are empty up "
-            "to quote markers and indentation (simulation of the two renderer runs, Proofs/SpacingProofs.v). What the modes do to the "
+            "to quote markers and indentation (simulation of the two renderer runs, Proofs/SpacingProofs.v); the modes are re-labellings of list "
+            "tightness and nothing else (Proofs/ModeProofs.v: rendering under a mode = rendering under preserve the tree whose lists carry "
+            "the tightness that mode decides; preserve re-labels nothing, loose marks every list loose, tight marks a list tight exactly "
+            "when each item holds at most one block; choosing a mode twice is choosing it once). What the modes do to the "
             "tightness Marko reads back (loose: every list of two or more items loose; tight: lists of single-block items tight; preserve: "
             "as in the input) and cleanups on vs off on re-parsed trees are evaluated on the extracted model and the implementation.",
     "note": "Findings D-42 and D-56 (tightness not preserved around headings / nested loose lists) are listed. Marko's reading of tight/loose "
